@@ -108,12 +108,12 @@ def gen_plan(rng, tier, index):
         spec = random_stream(rng)
         total = sum(len(f.encode()) for f in build_stream(spec, False, 0))
         active = rng.random() < 0.5
-        if kind < 0.2:
+        if kind < 0.18:
             plan["kind"] = "disable_race"
             plan.update(stream=spec, stream_id=-1, active=active, cut=0, fault="disable_race",
                         race_steps=rng.choice([0, 1, 2, 3, 5, 8, 13, 21, 34, 55, 89, 144, 233]),
                         peer_connects=rng.random() < 0.7)
-        elif kind < 0.3:
+        elif kind < 0.4:
             plan["kind"] = "connect_close"
             plan.update(stream=spec, stream_id=-1, active=active, cut=0, fault="fin")
         else:
@@ -157,6 +157,17 @@ def gen_plan(rng, tier, index):
             # fault: freshly started threads (accept/connect/receiver/select threads, API callers) frozen for a while
             sched["stall"] = {"q": rng.choice([0.1, 0.25, 0.4]), "J": rng.choice([8, 40, 200, 1000]),
                               "durs": [0.05, 0.5, 2.0], "max": 3}
+            if rng.random() < 0.5:
+                # wake-relative placement: shortly after one of the thread's first W wake-ups
+                sched["stall"].update(W=rng.choice([0, 2, 6, 20]), J=rng.choice([5, 20, 60]))
+    if plan["kind"] == "connect_close" and rng.random() < 0.6:
+        plan["close_steps"] = rng.choice([0, 0, 1, 2, 3, 5, 8, 13, 21, 34, 55, 90])
+    if plan["kind"] == "connect_close" and rng.random() < 0.7:
+        # the connection dies while the accepting / connecting thread is still busy setting it up: that thread is frozen
+        # early in its life (it is started anew for every connection) or right after the wake-up that hands it the socket
+        sched["stall"] = {"q": 0.5, "J": rng.choice([10, 25, 40, 80]), "durs": [0.05, 0.5], "max": 2}
+        if rng.random() < 0.4:
+            sched["stall"].update(W=rng.choice([0, 1, 2, 3]), J=rng.choice([5, 20, 60]))
     plan["sched"] = sched
     return plan
 
@@ -219,6 +230,7 @@ def run(sim, plan):
     net = sim.make_net(latency=plan.get("latency", 0.0005))
     listener = hsmsenv.PeerListener(sim, configure=lambda p: None) if active else None
     ep = hsmsenv.Endpoint(sim, active, t5=plan["t5"], t6=plan["t6"])
+    ep.listener = listener
     ep.proto._linktest_timeout = plan["linktest"]  # tuning knob (class default 30 s)
     L = 2 * max(plan["t5"], plan["t6"]) + min(plan["linktest"], 30) + 10
     state = {"conn": 0}
@@ -270,6 +282,30 @@ def run(sim, plan):
         _reenable_and_verify(sim, plan, ep, establish, listener, L)
         return
 
+    if plan["kind"] == "connect_close" and not active and plan.get("close_steps") is not None:
+        # a port probe: the peer closes (or resets) a few kernel steps after the TCP connection exists, while the
+        # accepting thread may still be busy handing the connection over
+        sim.nontrivial = True
+        peer = None
+        end = sim.now + 8
+        while peer is None and sim.now < end:
+            peer = hsmsenv.connect_peer(sim, label="probe")
+            if peer is None:
+                sim.advance(0.25)
+        if peer is None:
+            sim.violation("C09.R3", "the enabled endpoint never accepted/established a first connection",
+                          sig="C09.R3|initial-connect")
+        state["conn"] += 1
+        sim.focus(2)
+        if plan["close_steps"]:
+            sim.run_others(plan["close_steps"], max_dt=0.2)
+        (peer.reset if plan["close_steps"] % 2 else peer.close)()
+        sim.fault("fault_connect_close")
+        sim.probe("port_probe")
+        _after_link_loss(sim, plan, ep, peer, L, "connect-close")
+        _reconnect_and_verify(sim, plan, ep, establish, L)
+        sim.abstract = ("connect_close_probe", active, ep.state)
+        return
     peer = establish(True)
     if peer is None:
         sim.violation("C09.R3", "the enabled endpoint never accepted/established a first connection",
@@ -366,7 +402,19 @@ def _try_connect(sock):
 def _after_link_loss(sim, plan, ep, peer, L, what):
     """R1: the close sequence completes: NOT_CONNECTED and a disconnected event for every connected event (the
     connected event of a connection may still be outstanding when its connect/accept thread is stalled: >=)."""
-    ok = sim.wait_until(lambda: ep.state == "NOT_CONNECTED" and ep.disconnected_n >= ep.connected_n, L)
+    # a thread that is frozen right now (stall fault) may still have the set-up of the dead connection in front of it:
+    # the verdict is taken once everybody is running again
+    sim.wait_until(lambda: not sim.k.stalled_now(), 6)
+    sim.advance(0.05)
+
+    def newer_connection():
+        # an active endpoint reconnects on its own (T5): a younger connection shows that the old one was closed
+        lst = getattr(ep, "listener", None)
+        return lst is not None and peer in lst.peers and lst.peers[-1] is not peer and \
+            lst.peers.index(peer) < len(lst.peers) - 1
+
+    ok = sim.wait_until(lambda: (ep.state == "NOT_CONNECTED" and ep.disconnected_n >= ep.connected_n)
+                        or newer_connection(), L)
     if not ok:
         if ep.disconnected_n >= ep.connected_n:
             # the close sequence ran to its end (disconnected event fired) but the session state is wrong
@@ -475,6 +523,7 @@ def _final_disable(sim, plan, ep, L):
     if not sim.wait_until(lambda: call["done"], L):
         sim.violation("C09.R2", f"final disable() did not return within {L} virtual s",
                       sig=_hang_sig(sim, "C09.R2", "final-disable"))
+    sim.wait_until(lambda: not sim.k.stalled_now(), 6)
     ok = sim.wait_until(lambda: ep.state == "NOT_CONNECTED" and ep.disconnected_n >= ep.connected_n, 5)
     if not ok:
         sim.violation("C09.R1", f"after the final disable(): state={ep.state} connected={ep.connected_n} "
